@@ -71,8 +71,12 @@ def scalar_alphabet(consts, dtype):
         c = dtype(c)
         vals += [float(np.nextafter(c, dtype(-np.inf))), float(c), float(np.nextafter(c, dtype(np.inf)))]
     out, seen = [], set()
+    tiny = float(np.finfo(dtype).tiny)
     for v in vals:
         v = float(dtype(v))
+        if v != 0 and abs(v) < tiny:
+            # XLA:CPU flushes denormals to zero, so the float neighbours of 0 are the smallest NORMAL numbers
+            v = float(np.sign(v)) * tiny
         if v not in seen:
             seen.add(v)
             out.append(v)
